@@ -11,6 +11,7 @@ import taint
 import callgraph
 
 UNIT_MAX_PATHS = 6000
+UNIT_LOOP_BOUND, CALLER_LEVELS = 2, 3
 
 
 class Carry:
@@ -184,7 +185,7 @@ class Analysis:
         """explore `body` (or take `paths`), run the taint pass on every complete path, return what the result carries"""
         ctx, rep = self.ctx, self.rep
         if paths is None:
-            eng = engine or ctx.engine(loop_bound=2, max_paths=UNIT_MAX_PATHS, timeout=300, summaries=SUMMARIES)
+            eng = engine or ctx.engine(loop_bound=UNIT_LOOP_BOUND, max_paths=UNIT_MAX_PATHS, timeout=300, summaries=SUMMARIES)
             paths = eng.explore(body)
             rep.functions_encoded += [body] + sorted(getattr(eng, "inlined", []))
         carry = Carry(name)
@@ -227,6 +228,8 @@ def coroutine_caps(ctx, wrapper):
 
 
 def check(rep, tier, seed):
+    global UNIT_LOOP_BOUND, CALLER_LEVELS
+    UNIT_LOOP_BOUND, CALLER_LEVELS = (2, 3) if tier == "quick" else (3, 5)
     ctx = Ctx("agent")
     rep.extra["mir_dump"] = {"cache_hit": ctx.dump.cache_hit, "tree_hash": ctx.dump.hash, "seconds": round(ctx.dump.seconds, 1)}
     A = Analysis(ctx, rep)
@@ -323,7 +326,7 @@ def check(rep, tier, seed):
     pending = sorted(u for u in users if u not in analysed_bodies and "key_keeper_wrapper" not in u)
     level = 0
     seen_units = set()
-    while pending and level < 3:
+    while pending and level < CALLER_LEVELS:
         nxt = []
         for body in pending:
             if body in seen_units:
@@ -346,7 +349,7 @@ def check(rep, tier, seed):
         pending = sorted(set(nxt))
         level += 1
     if pending:
-        rep.add(Query("callers of key-carrying functions beyond three levels", "inconclusive", "%s" % pending[:5], 0, "mirsym"))
+        rep.add(Query("callers of key-carrying functions beyond %d levels" % CALLER_LEVELS, "inconclusive", "%s" % pending[:5], 0, "mirsym"))
 
     # ---- completeness: every non-test function whose MIR mentions a Key-typed local is one of the analysed units ----
     analysed = set(seen_units) | analysed_bodies | {act_body, w_act, w_upd + "::{closure#0}", w_set + "::{closure#0}", w_set, w_upd} | {p_sig, p_rrb, p_br, w_get + "::{closure#0}", w_acq + "::{closure#0}", w_att + "::{closure#0}"} | set(eng8.inlined)
@@ -391,7 +394,7 @@ def check(rep, tier, seed):
     rep.extra["units"] = [{"unit": u, "paths": n, "flows": k, "result_carries": {variant_names(c) or "result": l for c, l in ch.items()}} for (u, n, k, ch) in A.units]
     rep.extra["states"] = A.n_paths
     rep.extra["transitions"] = A.n_paths + A.n_guard
-    rep.bounds["flows"] = "%d complete paths over %d functions; explicit data flow only (values, parts, conversions, formatting, error wrapping, mutable receivers); loops unrolled twice" % (A.n_paths, len(A.units))
+    rep.bounds["flows"] = "%d complete paths over %d functions; explicit data flow only (values, parts, conversions, formatting, error wrapping, mutable receivers); loops unrolled %d times, callers followed %d levels" % (A.n_paths, len(A.units), UNIT_LOOP_BOUND, CALLER_LEVELS)
     rep.assumptions += ["uninterpreted library calls return a value that may contain anything their arguments contain (conservative), except HMAC finalisation, comparisons and lengths",
                         "Future::poll returns Ready", "serde/hyper/std do not write their inputs anywhere by themselves",
                         "tokio's mpsc SendError displays 'channel closed', not the message that could not be sent (the message is the key in KeyKeeperSharedState::update_key)"]
